@@ -121,7 +121,7 @@ func RunX(c XCase, st *XStats) *ev.Failure {
 					st.RetryThenPeer = true
 				}
 			}
-			r.Incomplete = o.Incomplete && correlating
+			r.Incomplete = o.Incomplete && correlating && f.RecordNeedsCorrelation(side)
 			err := ap.AggregateMsgByFlowKey(Message(c.Flows, r))
 			if err != nil && !r.Incomplete {
 				return ev.Failf("op %d: AggregateMsgByFlowKey: %v", i, err)
@@ -244,6 +244,10 @@ func checkCorrelation(ap *intermediate.AggregationProcess, f FlowDef, x *XFlow, 
 				return "intra-node / to-external flow is not marked filled"
 			}
 		}
+		return ""
+	}
+	if f.Denied() {
+		// ready at once: no correlation took place, nothing to compare
 		return ""
 	}
 	if x == nil || !x.Ready {
